@@ -92,6 +92,15 @@ func (filter *SearchableQueryFilter) ChangeSearchableOperator(expr *pg_query.A_E
 	// !~~* - NOT ILike
 	case "<>", "!~~", "!~~*":
 		expr.Name[0].GetString_().Sval = "<>"
+	default:
+		return
+	}
+	// LIKE and ILIKE are expression kinds of their own: with the name of the operator alone changed the deparser
+	// prints <column> <column> without any operator. What the database has to get is the plain comparison.
+	// Every other kind (IS [NOT] DISTINCT FROM, NULLIF are named "=" too) is the comparison that was written
+	switch expr.GetKind() {
+	case pg_query.A_Expr_Kind_AEXPR_LIKE, pg_query.A_Expr_Kind_AEXPR_ILIKE:
+		expr.Kind = pg_query.A_Expr_Kind_AEXPR_OP
 	}
 }
 
